@@ -270,10 +270,23 @@ private:
     {
       if (lba >= sectors_.size())
 	return std::nullopt;
-      const Sector& sect(sectors_[lba]);
-      DFS::SectorBuffer buf;
-      std::copy(sect.data.begin(), sect.data.end(), buf.begin());
-      return buf;
+      // Find the sector by its address, not by its position in
+      // sectors_: a sector which could not be decoded is absent, and
+      // every later sector then has a smaller index than its lba.
+      Track::SectorAddress want;
+      want.cylinder = static_cast<unsigned char>(lba / geom_.sectors);
+      want.head = static_cast<unsigned char>(side_);
+      want.record = static_cast<unsigned char>(lba % geom_.sectors);
+      for (const Sector& sect : sectors_)
+	{
+	  if (sect.address == want)
+	    {
+	      DFS::SectorBuffer buf;
+	      std::copy(sect.data.begin(), sect.data.end(), buf.begin());
+	      return buf;
+	    }
+	}
+      return std::nullopt;
     }
 
     std::string description() const override
